@@ -13,6 +13,8 @@ for id in "${ids[@]}"; do
     C06-9) checks="C05" ;;
     C10-8|C15-8) checks="C12" ;;
     C16-8) checks="C03" ;;
+    C04-10) checks="C04 C01" ;;
+    C10-10) checks="C10 C05" ;;
     *) checks="$P" ;;
   esac
   for c in $checks; do
